@@ -39,6 +39,7 @@ pub fn run(pid: &str, c: &Case) {
         "C08" => crate::ikprops::c08(c),
         "C16" => c16(c),
         "C10" => c10(c),
+        "C19" => c19(c),
         "C13" => c13(c),
         "C15" => c15(c),
         "C11" => c11(c),
@@ -625,4 +626,58 @@ pub fn c13(c: &Case) {
         }
     }
     println!("plans_ok={} plans_err={} longest_path={}", nok, nerr, maxlen); println!("native_cases={}", tried); bad.dedup(); for b in bad.iter().take(5) { println!("diff={}", b); } println!("reproduced={}", !bad.is_empty());
+}
+
+use rs_opw_kinematics::parameters::opw_kinematics::Parameters as P19;
+fn write_tmp(name: &str, txt: &str) -> String { let p = std::env::temp_dir().join(format!("verif_c19_{}_{}.yaml", std::process::id(), name)); std::fs::write(&p, txt).unwrap(); p.to_string_lossy().to_string() }
+/// C19: documents are written as TEXT from the case (scalar types, dof placement, array lengths, offset syntaxes) and read by the real reader; plus round trips of to_yaml
+pub fn c19(c: &Case) {
+    let mut bad: Vec<String> = Vec::new(); let mut tried = 0;
+    let clause = c.s("clause");
+    let geo = ["a1", "a2", "b", "c1", "c2", "c3", "c4"]; let gv_real = [0.15, -0.11, 0.05, 0.55, 0.61, 0.66, 0.12]; let gv_int = [1.0, -2.0, 0.0, 3.0, 1.0, 2.0, 0.0];
+    let mut docs: Vec<(String, Option<P19>)> = Vec::new();
+    if clause == "tree" || clause == "to_yaml" || clause.is_empty() {
+        let ints_all: Vec<Vec<f64>> = match c.vo("ints") { Some(v) => vec![v], None => vec![vec![0.0; 7], vec![1.0; 7], vec![0.0, 0.0, 1.0, 0.0, 0.0, 0.0, 0.0], vec![1.0, 0.0, 0.0, 1.0, 0.0, 1.0, 0.0]] };
+        let places: Vec<String> = if c.s("dof_place").is_empty() { vec!["top".into(), "nested".into(), "None".into()] } else { vec![c.s("dof_place")] };
+        for ints in &ints_all { for place in &places { for dof in [5i8, 6] { for n_signs in [6usize, 5] {
+            let mut t = String::from("opw_kinematics_geometric_parameters:\n"); let mut vals = [0.0; 7];
+            for i in 0..7 { let v = if ints[i] != 0.0 { gv_int[i] } else { gv_real[i] }; vals[i] = v; if ints[i] != 0.0 { t += &format!("  {}: {}\n", geo[i], v as i64); } else { t += &format!("  {}: {:?}\n", geo[i], v); } }
+            if place == "nested" { t += &format!("  dof: {}\n", dof); }
+            t += "opw_kinematics_joint_offsets: [0, 0.5, deg(-90.0), 0.25, deg(45), -1]\n";
+            t += &format!("opw_kinematics_joint_sign_corrections: [{}]\n", if n_signs == 6 { "1, 1, -1, -1, -1, -1" } else { "1, 1, -1, -1, -1" });
+            if place == "top" { t += &format!("dof: {}\n", dof); }
+            let edof = if place == "None" { 6 } else { dof };
+            let mut sg = [1i8, 1, -1, -1, -1, if n_signs == 6 { -1 } else { 0 }]; if edof == 5 { sg[5] = 0; }
+            let want = P19 { a1: vals[0], a2: vals[1], b: vals[2], c1: vals[3], c2: vals[4], c3: vals[5], c4: vals[6], offsets: [0.0, 0.5, (-90.0f64).to_radians(), 0.25, 45.0f64.to_radians(), -1.0], sign_corrections: sg, dof: edof };
+            docs.push((t, Some(want)));
+        } } } }
+        // round trips of the library's own output
+        for (b, dof, sg5) in [(0.0, 6i8, -1i8), (0.05, 5, 0), (-2.0, 6, 1)] {
+            let p = P19 { a1: 1.0, a2: -0.11, b, c1: 0.55, c2: 2.0, c3: 0.66, c4: 0.0, offsets: [0.0, 0.1, (-90.0f64).to_radians(), 0.0, 0.0, 180.0f64.to_radians()], sign_corrections: [1, -1, 1, -1, 1, sg5], dof };
+            docs.push((p.to_yaml(), Some(p)));
+        }
+    }
+    if clause == "malformed" || clause.is_empty() {
+        for t in ["", "\n", "opw_kinematics_geometric_parameters:\n  a1: 1.0\n", "just a string", "- 1\n- 2\n", "opw_kinematics_geometric_parameters: 5\n",
+                  "opw_kinematics_geometric_parameters:\n  a1: 0.1\n  a2: 0.1\n  b: 0.0\n  c1: 0.1\n  c2: 0.1\n  c3: 0.1\n  c4: 0.1\nopw_kinematics_joint_offsets: [0, 0, 0, 0]\n",
+                  "opw_kinematics_geometric_parameters:\n  a1: 0.1\n  a2: 0.1\n  b: 0.0\n  c1: 0.1\n  c2: 0.1\n  c3: 0.1\n  c4: 0.1\nopw_kinematics_joint_offsets: [0, deg(x), 0, 0, 0, 0]\n"] { docs.push((t.to_string(), None)); }
+    }
+    for (i, (txt, want)) in docs.iter().enumerate() {
+        tried += 1;
+        let path = write_tmp(&format!("{}", i), txt);
+        let r = std::panic::catch_unwind(|| P19::from_yaml_file(&path));
+        let _ = std::fs::remove_file(&path);
+        match (r, want) {
+            (Err(_), _) => bad.push(format!("the reader PANICS on:\n{}", txt)),
+            (Ok(Err(e)), Some(_)) => bad.push(format!("a document in the documented format is rejected ({}):\n{}", e, txt)),
+            (Ok(Ok(_)), None) => { if txt.trim().is_empty() || !txt.contains("c4") { bad.push(format!("a malformed document is accepted:\n{}", txt)); } }
+            (Ok(Err(_)), None) => {}
+            (Ok(Ok(p)), Some(w)) => {
+                let g = [(p.a1, w.a1), (p.a2, w.a2), (p.b, w.b), (p.c1, w.c1), (p.c2, w.c2), (p.c3, w.c3), (p.c4, w.c4)];
+                if g.iter().any(|(a, b)| (a - b).abs() > 1e-12) || p.dof != w.dof || p.sign_corrections != w.sign_corrections || (0..6).any(|k| (p.offsets[k] - w.offsets[k]).abs() > 1e-6) {
+                    bad.push(format!("read back dof={} signs={:?} offsets={:?} geometry={:?}, expected dof={} signs={:?} from:\n{}", p.dof, p.sign_corrections, p.offsets, [p.a1, p.a2, p.b, p.c1, p.c2, p.c3, p.c4], w.dof, w.sign_corrections, txt)); }
+            }
+        }
+    }
+    println!("native_cases={}", tried); bad.dedup(); for b in bad.iter().take(4) { println!("diff={}", b.replace("\n", " | ")); } println!("reproduced={}", !bad.is_empty());
 }
